@@ -90,6 +90,54 @@ def NoAdjData : List Token → Prop
   | t₁ :: t₂ :: ts => ¬ (isData t₁ = true ∧ isData t₂ = true) ∧ NoAdjData (t₂ :: ts)
   | _ => True
 
+/-! ### the well-formedness predicates are decidable (used by the concrete non-vacuity instances) -/
+
+instance : (v : Str) → Decidable (ValueOK v)
+  | [] => isTrue trivial
+  | [_] => isTrue trivial
+  | c :: d :: r =>
+    have := instDecidableValueOK (d :: r)
+    inferInstanceAs (Decidable (_ ∧ _))
+
+instance : (c : Str) → Decidable (CommentOK c)
+  | [] => isTrue trivial
+  | [c] => inferInstanceAs (Decidable (c ≠ '-'))
+  | c :: d :: r =>
+    have := instDecidableCommentOK (d :: r)
+    inferInstanceAs (Decidable (_ ∧ _))
+
+instance (n : Str) : Decidable (NameOK n) := inferInstanceAs (Decidable (_ ∧ _ ∧ _))
+
+instance : (a : Attr) → Decidable (AttrOK a)
+  | (n, none) => inferInstanceAs (Decidable (NameOK n))
+  | (n, some v) => inferInstanceAs (Decidable (NameOK n ∧ ValueOK v ∧ ¬ (v.isEmpty = true ∧ binaryAttrs.contains n = true)))
+
+instance headAlphaDec : (n : Str) → Decidable (∃ c cs, n = c :: cs ∧ isAlpha c = true)
+  | [] => isFalse (by rintro ⟨c, cs, h, _⟩; cases h)
+  | c :: cs => decidable_of_iff (isAlpha c = true)
+      ⟨fun h => ⟨c, cs, rfl, h⟩, fun ⟨c', cs', e, ha⟩ => by cases e; exact ha⟩
+
+instance hexRefDec : (n : Str) →
+    Decidable (∃ x hs, n = x :: hs ∧ (x = 'x' ∨ x = 'X') ∧ hs ≠ [] ∧ ∀ c ∈ hs, isHex c = true)
+  | [] => isFalse (by rintro ⟨x, hs, h, _⟩; cases h)
+  | x :: hs => decidable_of_iff ((x = 'x' ∨ x = 'X') ∧ hs ≠ [] ∧ ∀ c ∈ hs, isHex c = true)
+      ⟨fun h => ⟨x, hs, rfl, h⟩, fun ⟨x', hs', e, h⟩ => by cases e; exact h⟩
+
+instance (n : Str) : Decidable (TagNameOK n) := inferInstanceAs (Decidable (_ ∧ _ ∧ _))
+
+instance : (t : Token) → Decidable (TokOK t)
+  | .start n a => inferInstanceAs (Decidable (TagNameOK n ∧ isRawText n = false ∧ ∀ x ∈ a, AttrOK x))
+  | .startend n a => inferInstanceAs (Decidable (TagNameOK n ∧ ∀ x ∈ a, AttrOK x))
+  | .end_ n => inferInstanceAs (Decidable (TagNameOK n))
+  | .data s => inferInstanceAs (Decidable (s = ['<'] ∨ s = ['&'] ∨ (s ≠ [] ∧ ∀ c ∈ s, (c ≠ '<' ∧ c ≠ '&'))))
+  | .entity n => inferInstanceAs (Decidable ((∃ c cs, n = c :: cs ∧ isAlpha c = true) ∧ ∀ c ∈ n, isEntCh c = true))
+  | .charref n => inferInstanceAs (Decidable ((n ≠ [] ∧ ∀ c ∈ n, isDigit c = true) ∨
+      (∃ x hs, n = x :: hs ∧ (x = 'x' ∨ x = 'X') ∧ hs ≠ [] ∧ ∀ c ∈ hs, isHex c = true)))
+  | .comment c => inferInstanceAs (Decidable (CommentOK c))
+  | .decl d => inferInstanceAs (Decidable (lower (d.take 7) = "doctype".toList ∧ '>' ∉ d))
+  | .pi p => inferInstanceAs (Decidable ('>' ∉ p))
+  | .unknownDecl _ => isFalse (fun h => h)
+
 /-! ### attribute values -/
 
 theorem escQ_no_quote (v : Str) : '"' ∉ escQ v := by
@@ -680,6 +728,18 @@ theorem render_head (t : Token) (h : TokOK t) (hd : isData t = false) :
 def NotSingleton : Token → Prop
   | .data s => s ≠ ['<'] ∧ s ≠ ['&']
   | _ => True
+
+instance : (t : Token) → Decidable (NotSingleton t)
+  | .data s => inferInstanceAs (Decidable (s ≠ ['<'] ∧ s ≠ ['&']))
+  | .start _ _ => isTrue trivial
+  | .startend _ _ => isTrue trivial
+  | .end_ _ => isTrue trivial
+  | .entity _ => isTrue trivial
+  | .charref _ => isTrue trivial
+  | .comment _ => isTrue trivial
+  | .decl _ => isTrue trivial
+  | .pi _ => isTrue trivial
+  | .unknownDecl _ => isTrue trivial
 
 theorem renderToks_follows (t : Token) (hns : NotSingleton t) (ts : List Token) (hts : ∀ x ∈ ts, TokOK x)
     (hadj : NoAdjData (t :: ts)) : Follows t (renderToks ts) := by
